@@ -48,6 +48,7 @@ def dispatch (st : DState) (line : String) : DState × String :=
   | "latch" :: rest => (st, latchStep rest)
   | "crash" :: _ => (st, "skip")
   | "fault" :: _ => (st, "skip")
+  | "corrupt" :: _ => (st, "skip")
   | "mm" :: rest =>
     let (t, out) := mmStep st.mm rest obs
     ({ st with mm := t }, out)
